@@ -1260,7 +1260,20 @@ class Engine:
             return 0
         if n == 'fsync': return 0
         if n == 'fileno':
-            f = F.get(args[0]); return {'<stdout>': 1, '<stderr>': 2}.get(f['path'], 3) if f else 3
+            f = F.get(args[0])
+            if not f: return 3
+            if f['path'] in ('<stdout>', '<stderr>'): return 1 if f['path'] == '<stdout>' else 2
+            if 'fd' not in f:
+                s.fd_next = getattr(s, 'fd_next', 50) + 1; s.fds = getattr(s, 'fds', {}); f['fd'] = s.fd_next
+                s.fds[s.fd_next] = dict(path=f['path'], pos=0, append=False, acc=0)
+            return f['fd']
+        if n in ('fstat', 'fstat64', '__fxstat', '__fxstat64'):
+            fd, sa = (args[1], args[2]) if n.startswith('__') else (args[0], args[1]); fd = s.concretize(fd, 32)
+            ent = getattr(s, 'fds', {}).get(fd)
+            if ent is None or ent['path'] not in V: s.set_errno(9); return 0xFFFFFFFF
+            for i in range(0, 144, 8): s.store(sa + i, 8, 0)
+            s.store(sa + 24, 4, 0o100644); s.store(sa + 48, 8, len(V[ent['path']])); s.store(sa + 88, 8, s.vfs_mtime.get(ent['path'], 1)); s.store(sa + 96, 8, 0)
+            return 0
         if n in ('ftell', 'ftello'):
             f = F[args[0]]; s.vfs_flush(f)
             return len(V.get(f['path'], [])) if f['append'] and 'r' not in f['mode'] else f['pos']
@@ -1324,6 +1337,49 @@ class Engine:
                 for i in range(k): s.store(buf + i, 1, bs[i])
                 s.store(buf + k, 1, 0)
             return len(bs)
+        if n in ('open', 'open64', 'creat', 'creat64'):
+            # descriptor-level I/O on the same in-memory files: every write is a persistence event of its own (no user-space buffer)
+            path = s.cstring(args[0]); flags = (0o1101 if n.startswith('creat') else s.concretize(args[1], 32))
+            acc = flags & 3; creat = bool(flags & 0o100); trunc = bool(flags & 0o1000); excl = bool(flags & 0o200)
+            if path in s.vfs_dirs: s.set_errno(21); return 0xFFFFFFFF
+            if path not in V:
+                if not creat: s.set_errno(2); return 0xFFFFFFFF
+                if not s.vfs_event(): V[path] = []; s.vfs_id[path] = s.events; s.vfs_clock += 1; s.vfs_mtime[path] = s.vfs_clock
+            elif creat and excl: s.set_errno(17); return 0xFFFFFFFF
+            elif trunc and acc != 0:
+                if not s.vfs_event(): V[path][:] = []; s.vfs_clock += 1; s.vfs_mtime[path] = s.vfs_clock
+            s.fd_next = getattr(s, 'fd_next', 50) + 1; s.fds = getattr(s, 'fds', {})
+            s.fds[s.fd_next] = dict(path=path, pos=0, append=bool(flags & 0o2000), acc=acc); return s.fd_next
+        if n in ('write', 'read', 'close', 'lseek', 'ftruncate') and s.concretize(args[0], 32) in getattr(s, 'fds', {}):
+            fd = s.concretize(args[0], 32); f = s.fds[fd]; data = V.get(f['path'])
+            if n == 'close': del s.fds[fd]; return 0
+            if data is None: s.set_errno(5); return 0xFFFFFFFFFFFFFFFF
+            if n == 'write':
+                if f['acc'] == 0: s.set_errno(9); return 0xFFFFFFFFFFFFFFFF
+                ptr = s.concretize(args[1], 64); cnt = s.concretize(args[2], 64)
+                if cnt: s.check(ptr, cnt, 'write load')
+                bs = [s.load(ptr + i, 1) for i in range(cnt)]
+                if not s.vfs_event():
+                    if f['append']: f['pos'] = len(data)
+                    if f['pos'] > len(data): data.extend([0] * (f['pos'] - len(data)))
+                    data[f['pos']:f['pos'] + cnt] = bs; s.vfs_clock += 1; s.vfs_mtime[f['path']] = s.vfs_clock
+                f['pos'] += cnt; return cnt
+            if n == 'read':
+                ptr = s.concretize(args[1], 64); cnt = s.concretize(args[2], 64); got = max(0, min(cnt, len(data) - f['pos']))
+                if got: s.check(ptr, got, 'read store')
+                for i in range(got): s.store(ptr + i, 1, data[f['pos'] + i])
+                f['pos'] += got; return got
+            if n == 'lseek':
+                off = sx(s.concretize(args[1], 64), 64); wh = s.concretize(args[2], 32); f['pos'] = off if wh == 0 else f['pos'] + off if wh == 1 else len(data) + off; return f['pos']
+            if n == 'ftruncate':
+                ln = s.concretize(args[1], 64)
+                if not s.vfs_event(): data[:] = data[:ln] + [0] * (ln - len(data))
+                return 0
+        if n in ('rmdir',):
+            path = s.cstring(args[0])
+            if path not in s.vfs_dirs: s.set_errno(2); return 0xFFFFFFFF
+            if not s.vfs_event(): s.vfs_dirs.discard(path)
+            return 0
         if n in ('unlink', 'remove'):
             path = s.cstring(args[0])
             if path not in V: s.set_errno(2); return 0xFFFFFFFF
